@@ -1,9 +1,10 @@
 #!/usr/bin/env python3
-"""Regenerate /verif/MANIFEST.json from tools/manifest_table.json (one entry per claimed property)."""
+"""Regenerate /verif/MANIFEST.json from tools/manifest/<id>.json (one file per property) and tools/manifest/_global.json."""
 import json
 from pathlib import Path
 V = Path(__file__).resolve().parents[1]
-table = json.loads((V / 'tools' / 'manifest_table.json').read_text())
+table = {p.stem: json.loads(p.read_text()) for p in (V / 'tools' / 'manifest').glob('C*.json')}
+table.update(json.loads((V / 'tools' / 'manifest' / '_global.json').read_text()))
 props = [json.loads(l) for l in (V / 'properties.jsonl').read_text().splitlines() if l.strip()]
 checks, na = [], []
 for p in props:
